@@ -141,11 +141,7 @@ def run_order_script(world, script: dict, x: int, prog: dict, specs: dict, timeo
                         else:
                             sess.cancel()
                             st["ended"] = True
-                        # "Q": the exit returned and (by construction of the transport) read the output to its end:
-                        # always on a socket transport; over HTTP only an exchange session that is closed (every
-                        # response was read completely; a producer may abandon a half-read response, cancel reads nothing)
-                        if not http or (kind == "exch" and op != "x"):
-                            see("Q")
+                        see("Q")          # the caller has left the session
                 except StopIteration:
                     see("S")
                     st["ended"] = True
@@ -187,8 +183,14 @@ def run_content_case(world, case: dict, x: int) -> dict:
     step1 = {"pre": [spec] if place["slot"] == "pre" else [], "act": "emit",
              "post": [spec] if place["slot"] in ("post", "tail") else [], "md": False,
              "rows": 20000 if case.get("route") == "shm" else 1}          # 160 kB >= SHM_MIN_BATCH_BYTES: through the segment
-    prog = {"init_logs": [spec] if place["slot"] == "init" else [], "init_raise": False,
-            "steps": [] if script["kind"] == "unary" else [step1, {"pre": [], "act": "emit" if script["kind"] == "exch" else "fin", "post": []}],
+    plain = {"pre": [], "act": "emit", "post": [], "rows": 1, "md": False}
+    if tail and script["kind"] == "prod":
+        steps = [plain, step1, plain]                 # the message follows batch 2, the last one the caller takes
+    elif script["kind"] == "unary":
+        steps = []
+    else:
+        steps = [step1, {"pre": [], "act": "emit" if script["kind"] == "exch" else "fin", "post": []}]
+    prog = {"init_logs": [spec] if place["slot"] == "init" else [], "init_raise": False, "steps": steps,
             "past": "fin" if script["kind"] == "prod" else "emit", "in_rows": 1}
     W.take(x)
     events: list = []
@@ -211,11 +213,13 @@ def run_content_case(world, case: dict, x: int) -> dict:
                 # one turn, then leave: the message sits behind the batch and is met only by the exit
                 if script["kind"] == "exch":
                     ab = sess.exchange(AnnotatedBatch(batch=L.input_batch(x, 1, "exact", {"in_rows": 1})))
-                elif world.name == "http":
-                    ab = next(iter(sess))
+                    events.append(("P", L._ident(ab, x) == 1))
                 else:
-                    ab = sess.tick()
-                events.append(("P", L._ident(ab, x) == 1))
+                    # two turns: over HTTP the first one is folded into /init, the second is a continuation response
+                    it = iter(sess)
+                    for k in (1, 2):
+                        ab = next(it) if world.name == "http" else sess.tick()
+                        events.append(("P", L._ident(ab, x) == k))
                 if case["exit"] == "close":
                     sess.close()
                 elif case["exit"] == "with":
@@ -257,7 +261,7 @@ def run_content_case(world, case: dict, x: int) -> dict:
 # ------------------------------------------------------------------------------------------------ LogPeer
 K_LEVEL, K_MSG, K_EXTRA = VW.K_LEVEL, VW.K_MSG, VW.K_EXTRA
 STATE_KEY = b"vgi_rpc.stream_state#b64"
-UNKNOWN_LEVELS = [b"NOTICE", b"info", b"", b"WARNING", b"\xff\xfe", b" INFO", b"FATAL", b"Info"]
+UNKNOWN_LEVELS = [b"NOTICE", b"\xff\xfe", b"", b"info", b" INFO", b"WARNING", b"FATAL", b"Info"]
 PEER_EXTRAS = {
     "absent": [None],
     "obj_plain": [b'{"k": "v", "n": "1"}', '{"ключ": "значение", "": "empty key"}'.encode()],
